@@ -62,4 +62,82 @@ CHECKS["C19"] = dict(
           "dtype/shape of empty arrays)."),
     technique="Coq proof (mutual induction) over hand-written Gallina model + exact vm_compute correspondence",
     design="4/C19")
+CHECKS["C05"] = dict(
+    text=("Theorems (Coq Reals + Coquelicot, 29 obligations) about R-valued Gallina definitions regenerated each run by translate/pyscalar.py from "
+          "the six kernels' k bodies, util.distance, the Add/Mul/Pow node arithmetic: each profile equals its documented closed form; the distance "
+          "entry is sqrt(|x-y|^2+1e-12), symmetric, >= 1e-6; profile(0)=1, decreasing, values in (0,1]; keval symmetric, pointwise sum/product/"
+          "power, inactive dimensions irrelevant, time covariance is the state x time product (structural induction over kexpr, any depth); PSD "
+          "closure under sum/scaling/restriction. Each sampled input of the implementation is turned into exact rationals and the real-valued "
+          "model is enclosed by the Interval tactic at that point (1000+ kernel-checked goals per run) within a derived tolerance."),
+    note=("Trusted: Coq kernel + standard real-number axioms (classic, sig_forall_dec, sig_not_dec, functional_extensionality_dep); pyscalar "
+          "translator; the kexpr/keval recursion scheme is hand-written over generated node arithmetic (pattern-checked + correspondence). "
+          "PARTIAL: positive-definiteness of the stationary kernels (Bochner) and of entry-wise products (Schur) are hypotheses of "
+          "C05_keval_psd_partial, tested numerically as support only; linear_gram_psd not proved; RatQuad docstring exponent typo noted."),
+    technique="Coq real-analysis proof over translator-generated definitions + Interval-tactic enclosure at every sampled input",
+    design="4/C05")
+CHECKS["C11"] = dict(
+    text=("Theorems (16 obligations): is_derive of each generated radial profile equals the generated k_grad coefficient; the distance-gradient "
+          "entry equals the true partial derivative times dist/(dist+1e-12) with that factor in [1-1e-6,1); exact zeros at coincident points and "
+          "in inactive dimensions; every denominator >= 1e-6; kgrad_correct by structural induction over kernel expressions of any depth with any "
+          "active_dims form per node, scalar operands and powers of positive bases. ~960 Interval goals per run enclose the model's gradient "
+          "entries at the implementation's inputs; comparison with jax.jacfwd and finite differences as support."),
+    note=("Trusted: as C05. Powers of a non-positive base use Rpower in the model and are covered by the searcher only. The autodiff "
+          "comparison carries a 1e-7 relative floor that is an estimate, not derived (support only)."),
+    technique="Coq real-analysis proof (Coquelicot is_derive, structural induction) over generated definitions + Interval enclosure",
+    design="4/C11")
+CHECKS["C03"] = dict(
+    text=("Theorems (18 obligations) over generated _normal/_nearest_neighbors/_poisson/mle/compute_ls/compute_mu: the prior is the sum of log "
+          "standard-normal pdfs; the NN term is ln(rho d c_d r^(d-1) exp(-rho c_d r^d)) and the loss is the documented negative log posterior; "
+          "the NN-distance density integrates to 1 over (0,inf) (is_RInt_gen) for all rho,d>0; the MLE is the unique maximiser with the closed "
+          "form; Poisson k-NN term documented, maximised at ln j, equals the NN model for k=1; ls = e^3 geomean, mu = q_0.01(mle)-10 with "
+          "interpolating quantile (bounded, shift-equivariant), d default, ridge target. Interval goals enclose the model at sampled (r,d,z)."),
+    note=("Trusted: as C05; gammaln is an uninterpreted function lgam whose sampled values are taken as given (cross-checked against scipy/"
+          "math.lgamma). PARTIAL: k-NN normalisation for k>1, uniqueness of the ridge minimiser, loss_strictly_convex are not proved; tree "
+          "nearest-neighbour search and Ridge are contracts validated per run."),
+    technique="Coq real-analysis proof (Coquelicot RInt_gen, derivatives) over generated definitions + Interval enclosure",
+    design="4/C03")
+CHECKS["C01"] = dict(
+    text=("Theorems (MathComp, all dimensions, any real closed field, 14 obligations) about MatOps-generic definitions regenerated each run by "
+          "translate/pymatrix.py from conditional.py/util.py: add_variance diagonal floor; normal equations of the full, DTC and Cholesky-latent "
+          "formulations for every noise path (y_is_mean, scalar, vector sigma, supplied factor) with uniqueness; the mean is an affine read-out "
+          "and row-local (batch/permutation independence); nine-class table. The SAME generated definitions are executed under a PrimFloat "
+          "instance inside Coq on the implementation's Gram matrices and compared through residuals with a derived tolerance; an independent "
+          "NumPy dense solve of the stated normal equations produces replays."),
+    note=("Trusted: Coq kernel; pymatrix translator; library contracts as Section hypotheses (cholesky on SPD input, solve_triangular = inverse "
+          "of the triangle read) validated by residual on every recorded call; PSD of kernel Gram matrices is a hypothesis. No non-vacuity "
+          "Example for the chol contract (needs a Cholesky existence proof over rcfType - not written). Dispatch theorem lives in C15/C02."),
+    technique="Coq MathComp proof over translator-generated generic matrix definitions + PrimFloat execution of the same definitions",
+    design="4/C01")
+CHECKS["C16"] = dict(
+    text=("Theorems (9 obligations): weights of the full and DTC families are linear in (y - mu), hence pred(a y + b, a mu + b) = a pred + b; "
+          "column independence; interpolation identity pred(X) - y = -jitter * w for y_is_mean or sigma^2 <= jitter (full) and the DTC analogue; "
+          "constant vector sigma = scalar sigma. Real FunctionEstimator fits over scalings a in +-[1e-3,1e3], 1-5 columns, with/without Xnew, "
+          "multi_fit_predict, checked against the proved identities with derived tolerances."),
+    note=("Trusted: as C01. shrinkage_monotone is NOT proved (searcher only). Known C15 findings (landmarks + uncertainty / vector sigma) are excluded."),
+    technique="Coq MathComp proof over translator-generated definitions + PrimFloat execution + real fits",
+    design="4/C16")
+CHECKS["C04"] = dict(
+    text=("Theorems (6 obligations): full: L L^T = K + max(sigma^2,j) I; inducing points: L L^T = K_xu (K_uu + j I)^-1 K_ux (recomputed and "
+          "supplied Lp); full Nystroem: gap = discarded eigen-part, PSD; improved Nystroem factor identity; (K + j I) - L L^T is PSD via the Schur "
+          "complement under the joint-Gram PSD hypothesis. PrimFloat execution of the generated decomposition routines on recorded Gram matrices, "
+          "eigh/qr outputs recorded and contract-checked; NumPy oracle for residuals and the minimum eigenvalue of the gap."),
+    note=("Trusted: as C01 plus eigh/qr contracts (validated per call). W^-1 = v S^-1 v^T for the improved Nystroem inner matrix is not proved. "
+          "Shapes of error branches are covered by C15."),
+    technique="Coq MathComp proof (Schur complement) over translator-generated definitions + PrimFloat execution",
+    design="4/C04")
+CHECKS["C06"] = dict(
+    text=("Theorems (9 obligations): posterior covariance symmetric PSD, diag path = diagonal of the full path, 0 <= var <= k(x,x), covariance at "
+          "conditioning points N - N (K+N)^-1 N hence in [0, jitter], the three families share the covariance body, mean_covariance is the Gram "
+          "matrix of K_su W, W is the linear propagator of the input covariance factor (incl. latent std form). PrimFloat execution + NumPy "
+          "oracle (symmetry, eigenvalues, diag agreement, bounds, propagation by refitting with shifted y)."),
+    note=("Trusted: as C01. var_monotone_in_inducing_points, uncertainty_is_sum and the ValueError guards are NOT proved (searcher/execution only)."),
+    technique="Coq MathComp proof over translator-generated definitions + PrimFloat execution",
+    design="4/C06")
+CHECKS["C09"] = dict(
+    text=("Theorems (5 obligations), landmarks = cells: L_s L_s^T = (K + j I) - 2 j I + j^2 A'^-1 with the Loewner sandwich; Cholesky-latent vs "
+          "full prediction differ by j K_*x A'^-1 w; DTC vs full weights identity; the three covariance bodies coincide; truncation error = "
+          "discarded eigen-part (PSD, trace = discarded mass). PrimFloat execution + real triples of formulations on identical data."),
+    note=("Trusted: as C01/C04. 'p = n => L_p L_p^T = K + j I' is covered by execution only; spectral-norm statements are replaced by Loewner/trace forms."),
+    technique="Coq MathComp proof over translator-generated definitions + PrimFloat execution",
+    design="4/C09")
 NOT_YET = {}
